@@ -1,6 +1,8 @@
 // C19 — suspending and resuming pools or workers never loses work.   Engine: E-rt.
 #include "rt.hpp"
 
+#include <pika/semaphore.hpp>
+
 #include <pika/execution.hpp>
 #include <pika/threading_base/thread_num_tss.hpp>
 
@@ -24,6 +26,7 @@ struct Case
     bool elastic = true;
     bool refusal_ec = false;    // refusal probe uses the error_code form
     std::vector<Op> ops;
+    int nblocked = 0;    // tasks of the target pool that stay blocked (suspended) during the whole history and are released at the end
 };
 
 static Case decode(tape_t const& tape)
@@ -76,6 +79,11 @@ static Case decode(tape_t const& tape)
         }
         c.ops.push_back(o);
     }
+    c.nblocked = t.pick({0, 2, 0, 5, 9});    // (drawn last: shorter, older tapes decode to 0)
+    // pool-level suspend_direct() waits for the pool to drain (documented): it cannot be combined with tasks that stay blocked
+    if (c.nblocked > 0)
+        for (auto& o : c.ops)
+            if (o.k == O_SUSPEND_POOL_RESUME) o.k = O_BURST;
     return c;
 }
 
@@ -94,7 +102,7 @@ static std::string describe(tape_t const& tape)
         if (o.k == O_BURST || o.k == O_BURST_RACING_SUSPEND) os << " m=" << o.m << " hint=" << o.hint << (o.yielding ? " yielding" : "");
         os << "\"";
     }
-    os << "], \"refusal_form\": \"" << (c.refusal_ec ? "error_code" : "throws") << "\"}";
+    os << "], \"tasks_blocked_throughout\": " << c.nblocked << ", \"refusal_form\": \"" << (c.refusal_ec ? "error_code" : "throws") << "\"}";
     return os.str();
 }
 
@@ -107,6 +115,9 @@ struct World
     std::atomic<int> definitely_suspended[16];
     std::atomic<int> pool_definitely_suspended{0};
     std::atomic<long long> ran_hinted_to_sleeping{0}, stranded_until_resume{0}, refusals{0};
+    // tasks that stay blocked on `gate` during the whole history (a worker must be able to sleep with suspended tasks in its map)
+    pika::counting_semaphore<> gate{0};
+    std::atomic<int> blocked_in{0}, blocked_out{0};
 };
 
 static void body(World& W, bool yielding)
@@ -195,6 +206,24 @@ static Outcome run(tape_t const& tape)
     std::vector<bool> susp(static_cast<std::size_t>(c.tgt_size), false);
     int suspend_resume_pairs = 0;
     Outcome out;
+    for (int b = 0; b < c.nblocked; ++b)
+    {
+        ex::thread_pool_scheduler sb{W.tgt};
+        sb = ex::with_hint(sb, pika::execution::thread_schedule_hint(static_cast<std::int16_t>(b % c.tgt_size)));
+        ex::execute(sb, [&W] {
+            G().expected_suspended.fetch_add(1);
+            W.blocked_in.fetch_add(1);
+            W.gate.acquire();
+            G().expected_suspended.fetch_sub(1);
+            W.blocked_out.fetch_add(1);
+        });
+    }
+    {
+        MainWaiting mw;
+        while (W.blocked_in.load() < c.nblocked) { struct timespec ts { 0, 100000 }; nanosleep(&ts, nullptr); }
+        struct timespec ts { 0, 2000000 };
+        nanosleep(&ts, nullptr);    // (let them finish suspending)
+    }
     auto wait_all_done = [&](char const* what) {
         // progress must not need a resume: if the runtime goes quiescent with unfinished tasks the detector reports it
         G().awaited_signal_missing = [&] { return W.finished.load() < W.submitted.load(); };
@@ -334,6 +363,14 @@ static Outcome run(tape_t const& tape)
     if (out.kind == Outcome::PASS)
     {
         wait_all_done("final");
+        // now release the tasks that were blocked all along: they must all still be there
+        if (c.nblocked > 0)
+        {
+            W.gate.release(c.nblocked);
+            G().awaited_signal_missing = [&] { return W.blocked_out.load() < c.nblocked; };
+            MainWaitingForSignal mw;
+            while (W.blocked_out.load() < c.nblocked) { struct timespec ts { 0, 100000 }; nanosleep(&ts, nullptr); }
+        }
         G().awaited_signal_missing = nullptr;
         {
             MainWaiting mw;
@@ -348,6 +385,7 @@ static Outcome run(tape_t const& tape)
     add_monitor_counters(out);
     out.counters["tasks"] = W.submitted.load();
     out.counters["suspend_resume_pairs"] = suspend_resume_pairs;
+    if (c.nblocked > 0) out.tags.push_back("has:tasks_blocked_throughout");
     out.counters["refusal_probes_ok"] = W.refusals.load();
     out.counters["tasks_unfinished_50ms_after_burst_with_sleeping_workers"] = W.stranded_until_resume.load();
     bool racing = false;
